@@ -298,7 +298,7 @@ func execC13(ci any) (r hx.Result) {
 				return
 			}
 			if c.Big {
-				if off := d.OutsideDiff(nil); off >= 0 {
+				if off := d.OutsideDiff([]dev.Interval{{Lo: 0, Hi: pStart}, {Lo: pStart + pSize, Hi: size}}); off >= 0 {
 					r.Fail("write-content", "device byte %d differs from the stream after a full-size write", off)
 					return
 				}
